@@ -45,7 +45,7 @@ def camel_ref(name):
 class C04(C.PipelineCheck):
     id = 'C04'
     title = 'The object passed to invoke has exactly the keys Tauri deserialises'
-    required_covers = ('keys:none', 'keys:zod', 'injected-filtered', 'channel-kept', 'optional', 'symbolic-type')
+    required_covers = ('keys:none', 'keys:zod', 'injected-filtered', 'channel-kept', 'optional', 'symbolic-type', 'looks-like')
 
     def bounds(self, tier):
         q = tier != 'thorough'
@@ -77,6 +77,8 @@ class C04(C.PipelineCheck):
             for n in (5, 6, 7, 9, 13):
                 yield ('symtype/%s/%d' % (form.replace('HOLE_t', 'T'), n), dict(kind='symtype', form=form, n=n))
         yield ('optional', dict(kind='optional'))
+        # user types whose names merely contain / start with / end with a framework name, next to a real channel and a real handle
+        yield ('looks-like', dict(kind='looks-like'))
 
     def mutant_scenarios(self, tier, name):
         for j in self.scenarios('quick'):
@@ -218,6 +220,15 @@ class C04(C.PipelineCheck):
                     e.cover('injected-filtered')
                 if e.decide(V.str_eq(t, Str('Option'))):
                     raise PathAbort()
+            elif p['kind'] == 'looks-like':
+                names = ['ReleaseChannel', 'ChannelOptions', 'MyChannel<u8>', 'AppHandleConfig', 'WindowSize', 'StateSnapshot', 'MyState<u8>', 'WebviewWindowOptions', 'RequestInfo',
+                         'UpdateChannel', 'SubWindow', 'AppState']
+                ty = names[e.choose(len(names))]
+                with_chan = e.choose(2) == 1
+                src = CMD + 'cmd(app: tauri::AppHandle, channel: %s, force: bool%s) -> i32 { 0 }\n' % (ty, ', on_progress: tauri::ipc::Channel<u32>' if with_chan else '')
+                exp = [(Str('channel'), False), (Str('force'), False)]
+                chans = [Str('onProgress')] if with_chan else []
+                e.cover('looks-like')
             else:
                 src = CMD + 'cmd(a: Option<i32>, b: i32, c: Option<Vec<String>>, d: Vec<Option<i32>>) -> i32 { 0 }\n'
                 exp = [(Str('a'), True), (Str('b'), False), (Str('c'), True), (Str('d'), False)]
